@@ -56,7 +56,8 @@ def concretise(ds, hist, rng):
                 prev = mp.get(q) or list(range(ds.np))
                 mp[q] = [prev[i] for i in perm]
         elif name == "ScaleW":
-            pres["w_scale"] = pres.get("w_scale", 1.0) * float(act[1]) * 0.37
+            # "all positive weight scale factors": of order one, and many orders of magnitude away from it
+            pres["w_scale"] = pres.get("w_scale", 1.0) * float(act[1]) * float(rng.choice([0.37, 1.0 / 3.0, 1e-3, 2.7e-6, 4.1e4]))
         elif name == "PermCol":
             n = len(ds.keys)
             p = [int(i) for i in rng.permutation(n)]
@@ -82,6 +83,7 @@ def shipped(ctx, rng, wd):
     from cv.core import REPO
     from cv.represent import represent
     examples = [("akimotoite", "input01", "input02")] + ([("diopside", "input01", "input02")] if ctx.tier == "thorough" else [])
+    nrun = 0
     for name, ph, st in examples:
         src = REPO / "examples" / name
         cfg = yaml.safe_load((src / "settings.yaml").read_text())
@@ -98,13 +100,15 @@ def shipped(ctx, rng, wd):
         try:
             base = snapshot(run(d0 / "settings.yaml"))
         except Exception as ex:
-            raise MachineryError(f"baseline run of examples/{name} failed: {ex!r}")
+            ctx.cov.setdefault("baseline_failed", []).append([name, repr(ex)[:200]])
+            continue
+        nrun += 1
 
         def perm(n, lo=0):
             p = list(range(lo)) + [int(i) + lo for i in rng.permutation(n - lo)]
             return p if p != list(range(n)) else list(range(lo)) + list(range(lo, n))[::-1]
         cases = [("q+modes+weights", {"q_perm": perm(nq, 1), "mode_perms": {0: list(range(3)) + perm(np_, 3)[3:], 1: perm(np_), nq - 1: perm(np_)},
-                                      "w_scale": 7.3}, False),
+                                      "w_scale": float(rng.choice([7.3, 1.0 / 3.0, 1.3e-5]))}, False),
                  ("columns+case+rows", {"col_perm": perm(ncol), "upper": True, "row_perm": perm(nrow)}, False),
                  ("volumes reversed", {"vol_perm": list(range(nv))[::-1]}, True)]
         if ctx.tier == "thorough":
@@ -129,6 +133,7 @@ def shipped(ctx, rng, wd):
                                   {**sig, "clause": "differs", "reorder": reorder})
                     break
 
+    return nrun
 
 def main(ctx, replay=None):
     logging.getLogger("cij").setLevel(logging.CRITICAL)
@@ -169,13 +174,18 @@ def main(ctx, replay=None):
                              interpolator=str(rng.choice(["lagrange", "krogh"])), order=3)]
         if ctx.tier == "thorough":
             sets += [free_dataset(rng, extra_shear=8, lattice=False, nq=5, nat=3), system_dataset(rng, exports, "trigonal7", lattice=True, nq=4, nat=1)]
+        nbase = 0
         for si, ds in enumerate(sets):
             d = wd.sub(f"base{si}")
             ds.fit_pressure_window(d)
             try:
                 base = snapshot(run(ds.write(d)))
             except Exception as ex:
-                raise MachineryError(f"baseline run failed: {ex!r}")
+                # a calculation that fails on the baseline presentation is not for this check to judge (C05/C12 do); go on with the
+                # other data sets and the shipped example
+                ctx.cov.setdefault("baseline_failed", []).append([si, repr(ex)[:200]])
+                continue
+            nbase += 1
             for qi, hist in enumerate(seqs):
                 pres, reorder = concretise(ds, hist, rng)
                 names = [a[0] for a in hist]
@@ -198,7 +208,9 @@ def main(ctx, replay=None):
                         ctx.violation(f"re-presentation {names} changes {k} by {dev:.3g} (relative to its scale)", {**case, "quantity": k, "dev": dev},
                                       {**sig, "clause": "differs", "reorder": reorder})
                         break
-        shipped(ctx, rng, wd)
+        nbase += shipped(ctx, rng, wd)
+        if nbase == 0:
+            raise MachineryError(f"no data set has a baseline run: {ctx.cov.get('baseline_failed')}")
         ctx.sample({"sequence": seqs[0]})
         ctx.sample({"sequence": seqs[-1]})
     finally:
